@@ -203,6 +203,7 @@ func main() {
 	tier := drv.Tier(*tierF)
 	seqx.PinGlobals()
 	r := seq.New("C05", tier, "model_checking")
+	defer r.CrashGuard()
 	r.Rule = "explicit-state search over logger worlds: every sequence of <= D transitions (derive a Logger/Context from any live value, open an event on any logger, add a field / a GetCtx-recording marshaler, finalise any open event) is replayed on the real zerolog in lock-step with the reference model; after the last transition every live logger emits a probe event (and a Dict()/Context.Object probe reads GetCtx) which must match the logger's own derivation path; states = distinct (transition sequence, probe outputs) , transitions = transitions applied; plus an interleaving exploration (Engine S) of threads deriving from and logging through a shared parent"
 	r.Assumptions = []string{"<= 6 live logger/context values, <= 2 open events, transition depth <= 5 (quick) / 6 (thorough)", "sync.Pool hands out the most recently recycled object (LIFO) in the sequential part; the concurrent part explores pool choices as scheduling points"}
 	depth := 5
